@@ -344,6 +344,13 @@ def replay_file(path):
     else the recorded trace, is validated again."""
     with open(path) as f:
         rp = json.load(f)
+    fw_props = ("C01", "C02", "C03", "C04", "C05", "C07", "C08", "C09")
+    if rp.get("property") not in fw_props or not (rp.get("expected") or rp.get("actual")):
+        # other engines: re-run the check that produced the file with the same tier and seed
+        import registry
+        r = rp.get("rerun", {})
+        print("re-running ./check %s --tier %s --seed %s" % (rp["property"], r.get("tier", "quick"), r.get("seed", 1)))
+        return registry.CHECKS[rp["property"]](rp["property"], r.get("tier", "quick"), int(r.get("seed", 1)))
     wd = vlib.workdir("replay")
     vlib.build_harness()
     trace = os.path.join(wd, "trace.ndjson")
